@@ -79,7 +79,8 @@ class RecursiveGraphIterator(Iterator[_core.Node], Reversible[_core.Node]):
 
     def _iterate_subgraphs(self, node: _core.Node):
         for attr in node.attributes.values():
-            if not isinstance(attr, _core.Attr):
+            if not isinstance(attr, _core.Attr) or attr.is_ref():
+                # A reference attribute holds no graph of its own
                 continue
             if attr.type == _enums.AttributeType.GRAPH:
                 if self._enter_graph is not None:
